@@ -36,6 +36,7 @@ Rules (ids):
   shadow-pair          shadows / shadowed-by do not point at each other
   type-struct-pair     glib:type-struct / glib:is-gtype-struct-for do not point at each other
   accessor-pair        property setter/getter vs method glib:set-property/get-property
+  accessor-unique      (strict / unique_accessors) two methods of one type claim the same property in the same role
   invoker              virtual-method invoker is not a method of the same type
 "live" = the element and all its ancestors are not marked introspectable="0"; the type
 rules apply to live callables, fields, properties and aliases only, the cross-reference
@@ -150,9 +151,10 @@ def closure_of(includes, search_dirs):
 
 
 class _Checker(object):
-    def __init__(self, root, search_dirs, strict_accessors):
+    def __init__(self, root, search_dirs, strict_accessors, unique_accessors=None):
         self.out = Findings()
         self.strict = strict_accessors
+        self.unique = strict_accessors if unique_accessors is None else unique_accessors
         self.me = NsIndex(root)
         self.deps = closure_of(self.me.includes, list(search_dirs))
         self.ns = root.find('namespace')
@@ -431,6 +433,18 @@ class _Checker(object):
                 out.musts += 1
                 if m.get(mattr) != pname:
                     self.bad('accessor-pair', p, '%s=%s but that method has %s=%r' % (pattr, acc, mattr, m.get(mattr)))
+        if self.unique:
+            # no two methods claim the same property in the same role
+            for mattr in ('glib:set-property', 'glib:get-property'):
+                claims = {}
+                for mname in sorted(methods):
+                    pn = methods[mname].get(mattr)
+                    if pn is not None:
+                        claims.setdefault(pn, []).append(mname)
+                for pn in sorted(claims):
+                    out.musts += 1
+                    if len(claims[pn]) > 1:
+                        self.bad('accessor-unique', comp, '%s=%s is claimed by methods %s' % (mattr, pn, ', '.join(claims[pn])))
         for mname, m in methods.items():
             for pattr, mattr in (('setter', 'glib:set-property'), ('getter', 'glib:get-property')):
                 pn = m.get(mattr)
@@ -535,12 +549,12 @@ def _local(name, nsname):
     return name
 
 
-def check_root(root, search_dirs=(), strict_accessors=False):
+def check_root(root, search_dirs=(), strict_accessors=False, unique_accessors=None):
     """Same as check_gir for an already parsed document (girread.El of <repository>)."""
-    return _Checker(root, search_dirs, strict_accessors).run()
+    return _Checker(root, search_dirs, strict_accessors, unique_accessors).run()
 
 
-def check_gir(xml_bytes, search_dirs=(), strict_accessors=False):
+def check_gir(xml_bytes, search_dirs=(), strict_accessors=False, unique_accessors=None):
     """Structural invariants of C05 over one GIR document.
 
     xml_bytes       the document
@@ -550,6 +564,8 @@ def check_gir(xml_bytes, search_dirs=(), strict_accessors=False):
                     a method's glib:set-property/get-property names an existing property pointing
                     back (only sound when no explicit (setter)/(getter)/(set-property)/(get-property)
                     annotation is in the input; those may name anything)
+    unique_accessors  demand that no two methods of a type claim the same property in the same role
+                    (rule accessor-unique); defaults to strict_accessors
     -> Findings: list of (rule_id, element_path, message); .unchecked, .unspecified, .musts
     """
-    return check_root(girread.parse(xml_bytes), search_dirs, strict_accessors)
+    return check_root(girread.parse(xml_bytes), search_dirs, strict_accessors, unique_accessors)
